@@ -404,7 +404,7 @@ def mgm_jobs(tier, props):
             fam_specs = [fs for i, fs in enumerate(fam_specs) if i % 4 == 0][:3]
         for label, spec in fam_specs:
             jobs.append({"spec": spec, "algo": "mgm2", "params": {"stop_cycle": k}, "props": list(props), "label": label})
-    jobs.extend(sweep_jobs(tier, props, algos=("mgm",)))
+    jobs.extend(sweep_jobs(tier, props, algos=("mgm",) if q else ("mgm", "mgm2")))
     return jobs
 
 
@@ -430,7 +430,7 @@ def sweep_jobs(tier, props, algos=("mgm",)):
                     for mode in ("min", "max"):
                         spec = _spec(["v0", "v1", "v2"], doms, _cons([("v0", "v1"), ("v1", "v2"), ("v2",)], [a, b, u]), mode)
                         for sched in SWEEP_SCHEDULES:
-                            out.append({"spec": spec, "algo": algo, "params": {"stop_cycle": 4}, "props": list(props),
+                            out.append({"spec": spec, "algo": algo, "params": {"stop_cycle": 4 if algo == "mgm" else 3}, "props": list(props),
                                         "unit_menu": (0.5,) if algo == "mgm" else (0.0, 0.999999), "schedule": sched, "label": "sweep"})
     return out
 
